@@ -71,6 +71,8 @@ def _UnsupportedType():
 
 
 def _dispatch(ex, st, f, args, kwargs, node):
+    if any(isinstance(a, Const) and a.kind == "libdt" for a in args):
+        args = [ex.eng.lib_value(st, a) if isinstance(a, Const) and a.kind == "libdt" else a for a in args]
     eng = ex.eng
     if isinstance(f, Const) and f.kind == "typing" and str(f.val).endswith(".cast") and len(args) == 2:
         yield st, args[1]          # typing.cast(T, x) is x
@@ -163,6 +165,12 @@ def _dispatch(ex, st, f, args, kwargs, node):
                 return
             eng.assumptions_used.add("datetime.date(<literals>).toordinal() evaluated by CPython's datetime at verification time")
             yield st, Const("libdate", d)
+        elif f.val == "datetime.datetime" and len(args) >= 3 and all(
+                isinstance(a, V) and a.ty == "int" and z3.is_int_value(z3.simplify(a.t)) for a in args) and (
+                not kwargs or (set(kwargs) == {"tzinfo"} and isinstance(kwargs["tzinfo"], Const) and kwargs["tzinfo"].val == "datetime.timezone.utc")):
+            import datetime as _dt
+            tz = _dt.timezone.utc if kwargs else None
+            yield st, Const("libdt", _dt.datetime(*[z3.simplify(a.t).as_long() for a in args], tzinfo=tz))
         elif eng.contracts.get_external(f.val, ex.fr.behavior) is not None:
             from . import externals
             yield from externals.call(ex, st, f.val, args, kwargs, node)     # a library class with an assumed constructor contract
